@@ -372,6 +372,7 @@ This decides `no new unaudited panic/recursion/loop site`, the enumerated necess
     // the generators treat notations the linker expands (selection types, COMPONENTS OF) as unreachable!(): the order of
     // the linking steps is what guarantees that none survives (shared with C09.order)
     crate::rules::c09::order(m, ctx, "C08.order");
+    filter_converter(m, ctx);
 }
 
 /// C08.acyclic: the resolvers that follow type references (classes baseline in audit/recursion.json) end because a chain
@@ -586,6 +587,103 @@ fn loops(m: &Model, ctx: &mut Ctx) {
                 if e["class"].as_str() == Some("finding") {
                     ctx.violate("C08.loop", &format!("finding:{}", k), file, *line, &format!("known non-terminating loop: {}", e["reason"].as_str().unwrap_or("")));
                 }
+            }
+        }
+    }
+}
+
+/// C08.filter: the conversion of a constraint element into PER-visible bounds ends in `x => unreachable!()` for the
+/// element kinds it does not handle; what keeps those kinds away is the PerVisible filter applied before it. The two
+/// are checked against each other: the filter (evaluated abstractly, recursing through SIZE / FROM wrappers) may say
+/// "visible" only for an element the converter handles — also when the element sits inside a SIZE or FROM wrapper.
+fn filter_converter(m: &Model, ctx: &mut Ctx) {
+    use crate::eval::{Env, Evaluator, Val};
+    let filt_se = m.fns.iter().find(|f| f.name == "per_visible" && f.self_ty.as_deref() == Some("SubtypeElements") && f.trait_.as_deref() == Some("PerVisible"));
+    let filt_eo = m.fns.iter().find(|f| f.name == "per_visible" && f.self_ty.as_deref() == Some("ElementOrSetOperation") && f.trait_.as_deref() == Some("PerVisible"));
+    let conv = m.fns.iter().find(|f| f.name == "try_from" && f.self_ty.as_deref() == Some("PerVisibleRangeConstraints") && f.trait_.as_deref().map(|t| t.contains("Option<&SubtypeElements>")).unwrap_or(false));
+    let (Some(filt_se), Some(filt_eo), Some(conv)) = (filt_se, filt_eo, conv) else {
+        ctx.fail_closed("C08.filter", "anchors not found: PerVisible for SubtypeElements / ElementOrSetOperation, TryFrom<Option<&SubtypeElements>> for PerVisibleRangeConstraints");
+        return;
+    };
+    ctx.func(&filt_se.key);
+    ctx.func(&conv.key);
+    let Ok(en) = m.find_enum("SubtypeElements") else {
+        ctx.fail_closed("C08.filter", "enum SubtypeElements not found");
+        return;
+    };
+    // converter: variants with an arm of their own (the wildcard arm is the unreachable!())
+    let Some(cm) = model::matches_in(&conv.block).into_iter().next() else {
+        ctx.fail_closed("C08.filter", "converter: no match");
+        return;
+    };
+    let wildcard_panics = cm.arms.iter().any(|a| !tok(&a.pat).contains("SubtypeElements::") && tok(&a.body).contains("unreachable!"));
+    let handled: BTreeSet<String> = en.variants.iter().filter(|v| cm.arms.iter().any(|a| tok(&a.pat).split('|').any(|alt| alt.contains(&format!("SubtypeElements::{}", v))))).cloned().collect();
+    ctx.extra.insert("converter_handles".into(), json!(handled));
+    if !wildcard_panics {
+        // nothing to protect
+        ctx.oblige("C08.filter", "converter-total", true);
+        return;
+    }
+    let consts = crate::rules::util::const_resolver(m);
+    let se_block = filt_se.block.clone();
+    let eo_block = filt_eo.block.clone();
+    let hook = move |ev: &Evaluator, name: &str, a: &[Val]| -> Option<Result<Val, String>> {
+        match (name, a.first()) {
+            (".per_visible", Some(recv @ Val::Ctor(n, _, _))) => {
+                let mut env = Env::new();
+                env.insert("self".into(), recv.clone());
+                Some(ev.eval_fn_body(if n == "Element" || n == "SetOperation" { &eo_block } else { &se_block }, &mut env))
+            }
+            (".constraints", Some(_)) => Some(Ok(Val::List(vec![]))),
+            _ => None,
+        }
+    };
+    let ev = Evaluator { consts: &consts, call_hook: &hook, inline: None };
+    let sample = |v: &str, inner: Option<Val>| -> Val {
+        match v {
+            "SingleValue" => Val::Ctor(v.into(), vec![], [("value".to_string(), Val::Opaque("v".into())), ("extensible".to_string(), Val::Bool(false))].into_iter().collect()),
+            "ValueRange" => Val::Ctor(v.into(), vec![], [("min".to_string(), Val::none()), ("max".to_string(), Val::none()), ("extensible".to_string(), Val::Bool(false))].into_iter().collect()),
+            "ContainedSubtype" => Val::Ctor(v.into(), vec![], [("subtype".to_string(), Val::Opaque("ty".into())), ("extensible".to_string(), Val::Bool(false))].into_iter().collect()),
+            "PermittedAlphabet" | "SizeConstraint" => Val::Ctor(v.into(), vec![Val::Ctor("Element".into(), vec![inner.unwrap_or(Val::Opaque("e".into()))], BTreeMap::new())], BTreeMap::new()),
+            o => Val::Ctor(o.into(), vec![Val::Opaque("payload".into())], BTreeMap::new()),
+        }
+    };
+    let visible = |v: &Val| -> Result<bool, String> {
+        let mut env = Env::new();
+        env.insert("self".into(), v.clone());
+        match ev.eval_fn_body(&filt_se.block, &mut env)? {
+            Val::Bool(b) => Ok(b),
+            o => Err(format!("per_visible returned {}", o.show())),
+        }
+    };
+    for v in &en.variants {
+        if v == "PermittedAlphabet" || v == "SizeConstraint" {
+            for inner in &en.variants {
+                if inner == "PermittedAlphabet" || inner == "SizeConstraint" {
+                    continue;
+                }
+                let key = format!("{}({})", v, inner);
+                ctx.oblige("C08.filter", &key, true);
+                match visible(&sample(v, Some(sample(inner, None)))) {
+                    Ok(vis) => {
+                        if vis && !handled.contains(inner) {
+                            ctx.violate("C08.filter", &format!("visible-but-unhandled:{}", key), &filt_se.file, filt_se.line,
+                                &format!("the PER-visibility filter lets `{} ({} ..)` through, but the conversion into bounds unwraps the {} and has no arm for a {} element: it ends in unreachable!() (panic on e.g. `OCTET STRING (SIZE (PATTERN \"abc\"))`)", if v == "SizeConstraint" { "SIZE" } else { "FROM" }, inner, v, inner));
+                        }
+                    }
+                    Err(e) => ctx.fail_closed("C08.filter", &format!("[{}]: {}", key, e)),
+                }
+            }
+        } else {
+            ctx.oblige("C08.filter", v, true);
+            match visible(&sample(v, None)) {
+                Ok(vis) => {
+                    if vis && !handled.contains(v) {
+                        ctx.violate("C08.filter", &format!("visible-but-unhandled:{}", v), &filt_se.file, filt_se.line,
+                            &format!("the PER-visibility filter lets a {} element through, but the conversion into bounds has no arm for it and ends in unreachable!()", v));
+                    }
+                }
+                Err(e) => ctx.fail_closed("C08.filter", &format!("[{}]: {}", v, e)),
             }
         }
     }
